@@ -12,6 +12,7 @@ OUT = os.path.join(VERIF, "out")
 
 FAIL_PATTERNS = [
     r"postcondition not satisfied",
+    r"unable to prove (pre|post)-?condition of closure",
     r"precondition not satisfied",
     r"invariant not satisfied",
     r"assertion failed",
